@@ -2,6 +2,8 @@ package main
 
 import (
 	"fmt"
+	"os"
+	"go/token"
 	"go/types"
 	"strings"
 
@@ -26,6 +28,13 @@ type ReachQ struct {
 	CutEdge  func(b *ssa.BasicBlock, succ int) bool
 	Region   map[*ssa.BasicBlock]bool // when set, only these blocks are traversed
 	SinkEdge func(b *ssa.BasicBlock, succ int) bool
+	// SinkDeep: Sink is also asked about the return instructions of helpers the traversal descended
+	// into (by default a helper's return is only where the caller goes on).
+	SinkDeep bool
+	// Descend: follow calls of unexported same-package functions and local closures into their
+	// bodies and back. Only for queries whose CutEdge/SinkEdge/CutInstr/Sink do not reason about
+	// the block structure of Fn (dominance, loop headers): those would misjudge a callee's blocks.
+	Descend bool
 }
 
 type ReachResult struct {
@@ -37,14 +46,58 @@ type ReachResult struct {
 	EdgeHit [2]*ssa.BasicBlock
 }
 
+// reachFrame: the traversal is inside helper h, entered from the call at instruction idx of
+// block b (itself inside frame up).
+type reachFrame struct {
+	h     *ssa.Function
+	cc    ssa.CallInstruction
+	b     *ssa.BasicBlock
+	idx   int
+	up    *reachFrame
+	depth int
+}
+
+// NoDescend switches the descent into local helpers off (VERIF_NO_DESCEND, for comparison).
+var NoDescend = os.Getenv("VERIF_NO_DESCEND") != ""
+
+// descendable: the call runs an unexported function or a local closure of fn's own package whose
+// body is available: its instructions execute as part of the caller's path.
+func descendable(fn *ssa.Function, in ssa.Instruction, fr *reachFrame) *ssa.Function {
+	if NoDescend {
+		return nil
+	}
+	cl, ok := in.(*ssa.Call)
+	if !ok {
+		return nil
+	}
+	h := cl.Call.StaticCallee()
+	if h == nil || len(h.Blocks) == 0 || h.Pkg == nil || h.Pkg != fn.Pkg || h == fn {
+		return nil
+	}
+	if obj, isF := h.Object().(*types.Func); isF && obj.Exported() {
+		return nil
+	}
+	if fr != nil && fr.depth >= 2 {
+		return nil
+	}
+	for f := fr; f != nil; f = f.up {
+		if f.h == h {
+			return nil // recursion
+		}
+	}
+	return h
+}
+
 func (q ReachQ) Run() ReachResult {
 	res := ReachResult{}
 	if len(q.Fn.Blocks) == 0 {
 		return res
 	}
 	type node struct {
-		b    *ssa.BasicBlock
-		pred *ssa.BasicBlock // only set for blocks branching on a phi of their own
+		b      *ssa.BasicBlock
+		pred   *ssa.BasicBlock // only set for blocks branching on a phi of their own
+		fr     *reachFrame     // nil: in q.Fn itself
+		resume int             // >0: the block is re-entered after the call at resume-1
 	}
 	type item struct {
 		n     node
@@ -53,12 +106,13 @@ func (q ReachQ) Run() ReachResult {
 	parent := map[node]node{}
 	hasParent := map[node]bool{}
 	visited := map[node]bool{}
+	frames := map[[2]interface{}]*reachFrame{}
 	var queue []item
 	if q.From != nil {
-		queue = append(queue, item{node{q.From.B, nil}, q.From.I + 1})
+		queue = append(queue, item{node{b: q.From.B}, q.From.I + 1})
 		// the start block may be re-entered from its beginning through a loop
 	} else {
-		n0 := node{q.Fn.Blocks[0], nil}
+		n0 := node{b: q.Fn.Blocks[0]}
 		queue = append(queue, item{n0, 0})
 		visited[n0] = true
 	}
@@ -74,23 +128,79 @@ func (q ReachQ) Run() ReachResult {
 		}
 		return p
 	}
+	enqueue := func(from, nn node, start int) {
+		if visited[nn] {
+			return
+		}
+		visited[nn] = true
+		if !hasParent[nn] && nn != from {
+			parent[nn] = from
+			hasParent[nn] = true
+		}
+		queue = append(queue, item{nn, start})
+	}
+	pushCtx := func(fr *reachFrame) int {
+		n := 0
+		var chain []*reachFrame
+		for f := fr; f != nil; f = f.up {
+			chain = append(chain, f)
+		}
+		for i := len(chain) - 1; i >= 0; i-- {
+			liftCtx = append(liftCtx, liftFrame{chain[i].h, chain[i].cc})
+			n++
+		}
+		return n
+	}
 	for len(queue) > 0 {
 		it := queue[0]
 		queue = queue[1:]
 		res.Blocks++
 		cut := false
+		pushed := pushCtx(it.n.fr)
+		popCtx := func() { liftCtx = liftCtx[:len(liftCtx)-pushed]; pushed = 0 }
 		for i := it.start; i < len(it.n.b.Instrs); i++ {
 			in := it.n.b.Instrs[i]
+			if ret, isRet := in.(*ssa.Return); isRet && it.n.fr != nil {
+				// the helper returns: the caller goes on after the call
+				if q.SinkDeep && q.Sink != nil && q.Sink(ret) {
+					res.Found, res.At, res.Path = true, in, pathTo(it.n)
+					popCtx()
+					return res
+				}
+				fr := it.n.fr
+				enqueue(it.n, node{b: fr.b, fr: fr.up, resume: fr.idx + 1}, fr.idx+1)
+				cut = true
+				break
+			}
 			if q.Sink != nil && q.Sink(in) {
 				res.Found, res.At, res.Path = true, in, pathTo(it.n)
+				popCtx()
 				return res
 			}
 			if q.CutInstr != nil && q.CutInstr(in) {
 				cut = true
 				break
 			}
+			if q.Region == nil && q.Descend {
+				if h := descendable(q.Fn, in, it.n.fr); h != nil {
+					key := [2]interface{}{in, it.n.fr}
+					fr := frames[key]
+					if fr == nil {
+						d := 1
+						if it.n.fr != nil {
+							d = it.n.fr.depth + 1
+						}
+						fr = &reachFrame{h: h, cc: in.(ssa.CallInstruction), b: it.n.b, idx: i, up: it.n.fr, depth: d}
+						frames[key] = fr
+					}
+					enqueue(it.n, node{b: h.Blocks[0], fr: fr}, 0)
+					cut = true
+					break
+				}
+			}
 		}
 		if cut {
+			popCtx()
 			continue
 		}
 		for si, s := range it.n.b.Succs {
@@ -98,31 +208,29 @@ func (q ReachQ) Run() ReachResult {
 			if it.n.pred != nil && !phiBranchFeasible(it.n.b, it.n.pred, si) {
 				continue // the branch tests a phi whose value on this incoming edge is a constant
 			}
-			if q.CutEdge != nil && q.CutEdge(it.n.b, si) {
+			reachPred = it.n.pred
+			cutE := q.CutEdge != nil && q.CutEdge(it.n.b, si)
+			sinkE := !cutE && q.SinkEdge != nil && q.SinkEdge(it.n.b, si)
+			reachPred = nil
+			if cutE {
 				continue
 			}
-			if q.SinkEdge != nil && q.SinkEdge(it.n.b, si) {
+			if sinkE {
 				res.Found, res.Path = true, append(pathTo(it.n), s)
 				res.EdgeHit = [2]*ssa.BasicBlock{it.n.b, s}
+				popCtx()
 				return res
 			}
 			if q.Region != nil && !q.Region[s] {
 				continue
 			}
-			nn := node{s, nil}
+			nn := node{b: s, fr: it.n.fr}
 			if branchesOnOwnPhi(s) {
 				nn.pred = it.n.b
 			}
-			if visited[nn] {
-				continue
-			}
-			visited[nn] = true
-			if !hasParent[nn] && nn != it.n {
-				parent[nn] = it.n
-				hasParent[nn] = true
-			}
-			queue = append(queue, item{nn, 0})
+			enqueue(it.n, nn, 0)
 		}
+		popCtx()
 	}
 	return res
 }
@@ -183,20 +291,291 @@ func phiBranchFeasible(b, pred *ssa.BasicBlock, si int) bool {
 	return feasible
 }
 
-// AtomEdges returns a CutEdge function that cuts every edge establishing any of the atoms.
-func AtomEdges(atoms ...Atom) func(b *ssa.BasicBlock, succ int) bool {
-	return func(b *ssa.BasicBlock, succ int) bool {
-		if len(b.Instrs) == 0 {
+// reachPred is set by ReachQ.Run while the edge predicates of a block that branches on a phi of
+// its own are evaluated: the block the path came from. (`x := a && b; if x {` is lowered to a
+// boolean phi: entered from the block that computed b, the branch tests b.)
+var reachPred *ssa.BasicBlock
+
+// branchCond decomposes the condition the If ending b tests, seen from reachPred when set.
+func branchCond(b *ssa.BasicBlock) (Cond, bool) {
+	if len(b.Instrs) == 0 {
+		return Cond{}, false
+	}
+	iff, ok := b.Instrs[len(b.Instrs)-1].(*ssa.If)
+	if !ok {
+		return Cond{}, false
+	}
+	c := Decompose(iff.Cond)
+	if phi, ok := ownPhiCond(b); ok && reachPred != nil {
+		var via ssa.Value
+		n := 0
+		for i, p := range b.Preds {
+			if p == reachPred {
+				via = phi.Edges[i]
+				n++
+			}
+		}
+		if n == 1 {
+			if _, isC := ConstBool(via); !isC {
+				inner := Decompose(via)
+				if c.Neg {
+					inner.Neg = !inner.Neg
+				}
+				return inner, true
+			}
+		}
+	}
+	return c, true
+}
+
+// edgeFacts lists elementary conditions known to hold (each normalised to be TRUE) when the edge
+// succ of b is taken: the branch condition itself, and - when that is a boolean variable computed
+// by `x := p && q` (true edge) or `x := p || q` (false edge), which go/ssa lowers to a phi of
+// constants and the last operand - the operands.
+func edgeFacts(b *ssa.BasicBlock, succ int) []Cond {
+	c, ok := branchCond(b)
+	if !ok {
+		return nil
+	}
+	if succ == 1 {
+		c.Neg = !c.Neg
+	}
+	out := []Cond{c}
+	var expand func(c Cond, depth int)
+	expand = func(c Cond, depth int) {
+		phi, ok := c.Val.(*ssa.Phi)
+		if !ok || depth > 3 || c.Bin != nil {
+			return
+		}
+		if bt, ok := phi.Type().Underlying().(*types.Basic); !ok || bt.Kind() != types.Bool {
+			return
+		}
+		wantTrue := !c.Neg // the phi is true on this edge
+		var consts []int
+		var vals []ssa.Value
+		for i, e := range phi.Edges {
+			if bv, isC := ConstBool(e); isC {
+				if bv == wantTrue {
+					return // the constant alone explains the value: nothing is known about the operands
+				}
+				consts = append(consts, i)
+			} else {
+				vals = append(vals, e)
+			}
+		}
+		if len(vals) != 1 || len(consts) == 0 {
+			return
+		}
+		// the last operand has the phi's value
+		last := Decompose(vals[0])
+		if !wantTrue {
+			last.Neg = !last.Neg
+		}
+		out = append(out, last)
+		expand(last, depth+1)
+		// every short-circuit test that did NOT jump to the phi with the constant
+		pb := phi.Block()
+		for _, i := range consts {
+			pred := pb.Preds[i]
+			if len(pred.Instrs) == 0 {
+				continue
+			}
+			iff, ok := pred.Instrs[len(pred.Instrs)-1].(*ssa.If)
+			if !ok || len(pred.Succs) != 2 {
+				continue
+			}
+			pc := Decompose(iff.Cond)
+			// the edge into the phi block was NOT taken
+			if pred.Succs[0] == pb && pred.Succs[1] != pb {
+				pc.Neg = !pc.Neg
+			} else if !(pred.Succs[1] == pb && pred.Succs[0] != pb) {
+				continue
+			}
+			out = append(out, pc)
+			expand(pc, depth+1)
+		}
+	}
+	expand(c, 0)
+	return out
+}
+
+// liftFrame: helper h is being analysed on behalf of its call cc.
+type liftFrame struct {
+	h  *ssa.Function
+	cc ssa.CallInstruction
+}
+
+var liftCtx []liftFrame
+
+func liftArg(p *ssa.Parameter) ssa.Value {
+	for i := len(liftCtx) - 1; i >= 0; i-- {
+		fr := liftCtx[i]
+		if p.Parent() != fr.h {
+			continue
+		}
+		for j, hp := range fr.h.Params {
+			if hp == p && j < len(fr.cc.Common().Args) {
+				return fr.cc.Common().Args[j]
+			}
+		}
+	}
+	return nil
+}
+
+// helperEstablishes: the fact f says that a same-package helper returned nil (its error result)
+// or true/false (its boolean result); the atom holds then if, inside the helper, that outcome is
+// only reachable across an edge establishing the atom (the helper's parameters standing for the
+// call's arguments). This is how a check that was moved into a function of its own
+// (`if err := d.checkSize(n); err != nil { return err }`, `if !holdInEffect(h, now) { continue }`)
+// keeps gating what it gated before.
+var NoLift = os.Getenv("VERIF_NO_LIFT") != ""
+
+func helperEstablishes(f Cond, atoms []Atom, helperCache map[string]bool) bool {
+	if NoLift || len(liftCtx) >= 2 {
+		return false
+	}
+	var cc ssa.CallInstruction
+	var idx int
+	wantNil, wantBool := false, false
+	var boolWant bool
+	switch {
+	case f.Bin != nil && (f.Bin.Op == token.EQL || f.Bin.Op == token.NEQ):
+		var other ssa.Value
+		if IsNilConst(f.Bin.Y) {
+			other = f.Bin.X
+		} else if IsNilConst(f.Bin.X) {
+			other = f.Bin.Y
+		} else {
 			return false
 		}
-		iff, ok := b.Instrs[len(b.Instrs)-1].(*ssa.If)
+		isNil := (f.Bin.Op == token.EQL) != f.Neg
+		if !isNil {
+			return false
+		}
+		c2, i2, ok := CallResult(other)
 		if !ok {
 			return false
 		}
-		c := Decompose(iff.Cond)
-		for _, a := range atoms {
-			p := a.Match(c)
-			if (p == PolTrue && succ == 0) || (p == PolFalse && succ == 1) {
+		cc, idx, wantNil = c2, i2, true
+	case f.Val != nil:
+		c2, i2, ok := CallResult(f.Val)
+		if !ok {
+			return false
+		}
+		cc, idx, wantBool, boolWant = c2, i2, true, !f.Neg
+	default:
+		return false
+	}
+	h := cc.Common().StaticCallee()
+	if h == nil || len(h.Blocks) == 0 || h.Pkg == nil || cc.Parent() == nil || h.Pkg != cc.Parent().Pkg || h == cc.Parent() {
+		return false
+	}
+	if wantNil && idx != h.Signature.Results().Len()-1 {
+		return false
+	}
+	key := fmt.Sprintf("%p|%d|%v|%v", cc, idx, wantNil, boolWant)
+	if r, ok := helperCache[key]; ok {
+		return r
+	}
+	helperCache[key] = false // recursion guard
+	liftCtx = append(liftCtx, liftFrame{h, cc})
+	savedPred := reachPred
+	reachPred = nil
+	defer func() {
+		liftCtx = liftCtx[:len(liftCtx)-1]
+		reachPred = savedPred
+	}()
+	cut := AtomEdges(atoms...)
+	res := true
+	n := 0
+	for _, lf := range ReturnLeaves(h, idx) {
+		if wantNil {
+			if !IsNilConst(lf.Val) {
+				// `return g(x)`: the helper returned nil because g did; that is the fact `g(x) == nil`
+				if lc, _, isCall := CallResult(lf.Val); isCall {
+					if co := CalleeOf(lc); co != nil && co.Pkg() != nil && (co.Pkg().Path() == "fmt" || co.Pkg().Path() == "errors") {
+						continue // fmt.Errorf / errors.New: never nil
+					}
+					n++
+					syn := Cond{Bin: &ssa.BinOp{Op: token.EQL, X: lf.Val, Y: ssa.NewConst(nil, lf.Val.Type())}}
+					matched := false
+					for _, a := range atoms {
+						if a.Match(syn) == PolTrue {
+							matched = true
+						}
+					}
+					if !matched {
+						res = false
+					}
+				}
+				continue
+			}
+		}
+		if wantBool {
+			bv, isC := ConstBool(lf.Val)
+			if isC && bv != boolWant {
+				continue
+			}
+			if !isC {
+				// `return p == q`: the returned condition itself
+				lc := Decompose(lf.Val)
+				if !boolWant {
+					lc.Neg = !lc.Neg
+				}
+				n++
+				matched := false
+				for _, a := range atoms {
+					if a.Match(lc) == PolTrue {
+						matched = true
+					}
+				}
+				if matched {
+					continue
+				}
+				// otherwise it has to be gated like a constant
+			}
+		}
+		n++
+		q := ReachQ{Fn: h, CutEdge: cut, Descend: true}
+		switch {
+		case lf.EdgeFrom != nil:
+			if cut(lf.EdgeFrom, lf.EdgeSucc) {
+				continue
+			}
+			from, succ := lf.EdgeFrom, lf.EdgeSucc
+			q.SinkEdge = func(b *ssa.BasicBlock, s int) bool { return b == from && s == succ }
+		case lf.Instr != nil:
+			at := lf.Instr
+			q.Sink = func(in ssa.Instruction) bool { return in == at }
+		default:
+			res = false
+			continue
+		}
+		if q.Run().Found {
+			res = false
+		}
+	}
+	if n == 0 {
+		res = false
+	}
+	helperCache[key] = res
+	return res
+}
+
+// AtomEdges returns a CutEdge function that cuts every edge establishing any of the atoms.
+func AtomEdges(atoms ...Atom) func(b *ssa.BasicBlock, succ int) bool {
+	cache := map[string]bool{}
+	return func(b *ssa.BasicBlock, succ int) bool {
+		facts := edgeFacts(b, succ)
+		for _, f := range facts {
+			for _, a := range atoms {
+				if a.Match(f) == PolTrue {
+					return true
+				}
+			}
+		}
+		for _, f := range facts {
+			if helperEstablishes(f, atoms, cache) {
 				return true
 			}
 		}
@@ -206,12 +585,67 @@ func AtomEdges(atoms ...Atom) func(b *ssa.BasicBlock, succ int) bool {
 
 // CountAtomEdges counts the edges of fn that establish the atom (for vacuity checks).
 func CountAtomEdges(fn *ssa.Function, a Atom) int {
+	n := countAtomEdgesIn(fn, a)
+	if n == 0 && len(liftCtx) < 3 && !NoDescend {
+		// the test may sit in a local helper or closure that fn calls (the traversal descends into those)
+		for _, hc := range localCalls(fn) {
+			liftCtx = append(liftCtx, liftFrame{hc.h, hc.cc})
+			n += countAtomEdgesIn(hc.h, a)
+			liftCtx = liftCtx[:len(liftCtx)-1]
+		}
+	}
+	return n
+}
+
+type localCall struct {
+	h  *ssa.Function
+	cc ssa.CallInstruction
+}
+
+// localCalls lists the calls in fn (and one level down) of unexported same-package functions and
+// local closures: the functions ReachQ descends into.
+func localCalls(fn *ssa.Function) []localCall {
+	var out []localCall
+	seen := map[*ssa.Function]bool{fn: true}
+	var walk func(f *ssa.Function, depth int)
+	walk = func(f *ssa.Function, depth int) {
+		for _, b := range f.Blocks {
+			for _, in := range b.Instrs {
+				h := descendable(fn, in, nil)
+				if h == nil || seen[h] {
+					continue
+				}
+				seen[h] = true
+				out = append(out, localCall{h, in.(ssa.CallInstruction)})
+				if depth < 1 {
+					walk(h, depth+1)
+				}
+			}
+		}
+	}
+	walk(fn, 0)
+	return out
+}
+
+func countAtomEdgesIn(fn *ssa.Function, a Atom) int {
 	n := 0
 	ce := AtomEdges(a)
 	for _, b := range fn.Blocks {
 		for si := range b.Succs {
 			if ce(b, si) {
 				n++
+				continue
+			}
+			if branchesOnOwnPhi(b) {
+				for _, p := range b.Preds {
+					reachPred = p
+					hit := ce(b, si)
+					reachPred = nil
+					if hit {
+						n++
+						break
+					}
+				}
 			}
 		}
 	}
@@ -340,4 +774,30 @@ func (cl Clause) String() string {
 		n = append(n, a.Name)
 	}
 	return strings.Join(n, " | ")
+}
+
+// CountClauseEdges counts the edges of fn that establish the disjunction of the clause's atoms.
+func CountClauseEdges(fn *ssa.Function, cl Clause) int {
+	n := 0
+	ce := AtomEdges(cl...)
+	for _, b := range fn.Blocks {
+		for si := range b.Succs {
+			if ce(b, si) {
+				n++
+				continue
+			}
+			if branchesOnOwnPhi(b) {
+				for _, p := range b.Preds {
+					reachPred = p
+					hit := ce(b, si)
+					reachPred = nil
+					if hit {
+						n++
+						break
+					}
+				}
+			}
+		}
+	}
+	return n
 }
